@@ -38,6 +38,9 @@ Next ==
                            /\ Report(IF e.nth = 1 THEN "V4Plain" ELSE "SwitchAtomic", e.framed = (IF e.nth = 1 THEN "plain" ELSE "enc"))
        [] e.name = "resp" -> /\ Report("Talk", e.http = e.want /\ e.framed = "enc" /\ e.bodyok)
        \* what the accessory sends of its own accord is framed the way the controller opens it at that point
+       \* a protected request before pair-verify is refused in plaintext (and the connection can still verify: the V2 / V4 / resp
+       \* lines that follow are judged as always)
+       [] e.name = "probe" -> Report("Talk", e.http >= 400 /\ e.http < 500 /\ e.framed = "plain")
        [] e.name = "event" -> Report("SwitchAtomic", e.framed = e.expected)
        [] e.name = "fail" -> Report(e.rule, FALSE)       \* the run could not proceed: e.rule says where
        [] OTHER -> TRUE
